@@ -177,9 +177,21 @@ def r4(c):
     facts = q.cmp_facts(b)
     xs = [x for x in q.exits(b) if x['kind'] == 'agg' and x['variant'] == 'Ok']
     okq = bool(xs)
+    def echo_part(o, fld=None):
+        s_ = q.sem(b, o)
+        pj = [p for p in s_.proj if p != 'deref']
+        return s_.kind == 'call' and s_.cs is pr and pj[:1] == ['<ok>'] and ((fld is None and len(pj) == 1) or (fld is not None and len(pj) == 2 and pj[1].endswith(':' + fld)))
+    def req_part(o, fld=None):
+        s_ = q.sem(b, o)
+        pj = [p for p in s_.proj if p != 'deref']
+        if not q.sem_is_name(b, s_, 'self') or not pj:
+            return False
+        return pj[-1].endswith(':range') if fld is None else (len(pj) >= 2 and pj[-2].endswith(':range') and pj[-1].endswith(':' + fld))
     for x in xs:
-        okq = okq and q.has_fact(b, x['node'], 'eq', lambda o: q.sem(b, o).kind == 'call' and q.sem(b, o).cs is pr and q.sem(b, o).proj == ('<ok>',),
-                                 lambda o: q.sem_is_name(b, q.sem(b, o), 'self') and q.sem(b, o).proj and q.sem(b, o).proj[-1].endswith(':range'), facts)
+        whole = q.has_fact(b, x['node'], 'eq', echo_part, req_part, facts)
+        # ... or field by field (`echo.start != start || echo.count != count` rejects)
+        fields = all(q.has_fact(b, x['node'], 'eq', lambda o, f=f: echo_part(o, f), lambda o, f=f: req_part(o, f), facts) for f in ('start', 'count'))
+        okq = okq and (whole or fields)
         v = q.sem(b, x['rv']['a'][0])
         okq = okq and v.kind == 'call' and v.cs is pr and v.proj == ('<ok>',)
     c.ob('MultipleWrite/echo', okq, 'Ok requires the echoed range to equal self.request.range', '', loc_of(b))
